@@ -154,6 +154,11 @@ type Exec struct {
 	safety   bool // emit implicit safety obligations (index, div, ...)
 	nilcheck bool
 	nosplit  bool
+	divAbstract bool
+	abstractAll bool
+	inlines  map[string]bool
+	pureCalls map[string]bool
+	poison   []string // names of the constants standing for the entry values of scratch locations
 	exhaustOnly bool
 	errs     []string
 	trusted  map[string]bool // assumptions used (for the evidence)
@@ -222,6 +227,21 @@ func (e *Exec) oblige(kind, label string, reach, goal Term, pos token.Pos) {
 	}
 }
 
+// obligeRel: the terms ts (at a point reached under `reach`) do not depend on the poison constants
+func (e *Exec) obligeRel(label string, reach Term, ts []Term, pos token.Pos) {
+	if e.c.dry || e.c.quiet > 0 || len(ts) == 0 {
+		return
+	}
+	e.kindCnt["noninterference:"+label]++
+	n := e.kindCnt["noninterference:"+label]
+	name := fmt.Sprintf("%s#noninterference:%s", e.unit, label)
+	if n > 1 {
+		name = fmt.Sprintf("%s#noninterference[%d]:%s", e.unit, n, label)
+	}
+	e.c.oblige(&Oblig{Name: name, Label: label, Kind: "noninterference", Fn: e.unit, Goal: reach, Pos: e.posStr(pos), Props: e.props,
+		Rel: append([]string{}, e.poison...), RelTerms: ts})
+}
+
 // ---------------------------------------------------------------------------------------------
 // function body execution
 
@@ -248,7 +268,14 @@ func (e *Exec) runFunc(fn *ssa.Function, args []Val, cells map[string]Term, reac
 	return fr.rets
 }
 
+type deferredCall struct {
+	fn   *ssa.Function
+	args []Val
+	key  string // state cell: whether the defer statement was executed on this path
+}
+
 type frame struct {
+	deferred []deferredCall
 	e       *Exec
 	fi      *FuncInfo
 	spec    *Contract
@@ -550,7 +577,10 @@ func (fr *frame) runLoop(li *LoopInfo) {
 		if n, ok := constTripCount(li); ok {
 			ls = &LoopSpec{Unroll: n + 1}
 		} else {
-			e.fail("loop %d of %s has no invariant/unroll clause", li.Ord, fr.fi.Fn)
+			// no invariant given: the invariant rule with the trivial invariant (sound; everything
+			// the loop modifies is arbitrary afterwards)
+			ls = &LoopSpec{}
+			e.trusted[fmt.Sprintf("loop %d of %s: no invariant given, loop-modified state havocked", li.Ord, fr.fi.Fn.Name())] = true
 		}
 	}
 	if ls.Unroll > 0 {
@@ -583,15 +613,55 @@ func (fr *frame) runLoop(li *LoopInfo) {
 	// 2. havoc the loop-modified state
 	reach, st := fr.mergeEdges(h, entry)
 	mod := fr.loopWrites(li, reach, st)
+	if len(e.poison) > 0 {
+		// non-interference: what the loop starts from must not depend on scratch entry values
+		// (the havoc below would hide such a dependence)
+		var ts []Term
+		var keys []string
+		for k := range mod {
+			keys = append(keys, k)
+		}
+		sort.Strings(keys)
+		for _, k := range keys {
+			if t, ok := st.cells[k]; ok {
+				ts = append(ts, t)
+			}
+		}
+		for _, in := range h.Instrs {
+			phi, ok := in.(*ssa.Phi)
+			if !ok {
+				break
+			}
+			if v, ok := st.env[phi]; ok {
+				ts = append(ts, v.L...)
+			}
+		}
+		e.obligeRel(fmt.Sprintf("loop%d", li.Ord), reach, ts, h.Instrs[0].Pos())
+	}
 	hreach := c.fresh(sortBool, fmt.Sprintf("loop%d_reach", li.Ord))
-	c.assume(c.implies(hreach, tTrue), "")
+	// being at the loop header (in any iteration) implies that the loop was entered: the facts
+	// of the path that leads to the loop stay available inside and after it
+	c.assume(c.implies(hreach, reach), "loop entered")
 	hst := st.clone()
 	for k := range mod {
-		if t, ok := st.cells[k]; ok {
-			hst.cells[k] = c.fresh(t.Sort, "havoc_"+cellName(k))
-		} else if t0, ok := c.initial[k]; ok {
-			hst.cells[k] = c.fresh(t0.Sort, "havoc_"+cellName(k))
+		t, ok := st.cells[k]
+		if !ok {
+			t, ok = c.initial[k]
 		}
+		if !ok {
+			continue
+		}
+		// heap classes (arrays over object references): when the loop body writes only objects
+		// that already exist before the loop, only those objects are havocked
+		if refs, precise := mod[k].refs, mod[k].precise; precise && t.Sort.K == SArray && t.Sort.Idx.K == SRef {
+			cur := t
+			for _, r := range refs {
+				cur = c.store(cur, r, c.fresh(t.Sort.Elem, "havoc_"+cellName(k)))
+			}
+			hst.cells[k] = cur
+			continue
+		}
+		hst.cells[k] = c.fresh(t.Sort, "havoc_"+cellName(k))
 	}
 	for _, in := range h.Instrs {
 		phi, ok := in.(*ssa.Phi)
@@ -723,7 +793,63 @@ func (fr *frame) takeBackEdges(li *LoopInfo) []Edge {
 }
 
 // loopWrites: dry-run the loop body once to find the cells it may modify
-func (fr *frame) loopWrites(li *LoopInfo, reach Term, st *State) map[string]bool {
+type modInfo struct {
+	refs    []Term
+	precise bool
+}
+
+// writtenRefs: the object references at which `t` differs from `base` when t is built from base
+// by stores and if-then-else only (ok=false otherwise)
+func (c *Ctx) writtenRefs(t, base Term, limit int, depth int) ([]Term, bool) {
+	if t.S == base.S {
+		return nil, true
+	}
+	if depth > 200 {
+		return nil, false
+	}
+	if info, ok := c.storeInfo[t.S]; ok {
+		// the reference must be a term that existed before the loop body was executed
+		if n := defNumber(info.idx.S); n < 0 || n > limit {
+			return nil, false
+		}
+		rest, ok := c.writtenRefs(info.base, base, limit, depth+1)
+		if !ok {
+			return nil, false
+		}
+		return append(rest, info.idx), true
+	}
+	if info, ok := c.iteInfo[t.S]; ok {
+		a, ok1 := c.writtenRefs(info.a, base, limit, depth+1)
+		b, ok2 := c.writtenRefs(info.b, base, limit, depth+1)
+		if !ok1 || !ok2 {
+			return nil, false
+		}
+		return append(a, b...), true
+	}
+	return nil, false
+}
+
+// defNumber: creation number of a defined name (v123 / k123_x); -1 for anything else except
+// the nil reference (0)
+func defNumber(name string) int {
+	if name == "nil_ref" {
+		return 0
+	}
+	if len(name) < 2 || (name[0] != 'v' && name[0] != 'k') {
+		return -1
+	}
+	n := 0
+	i := 1
+	for ; i < len(name) && name[i] >= '0' && name[i] <= '9'; i++ {
+		n = n*10 + int(name[i]-'0')
+	}
+	if i == 1 {
+		return -1
+	}
+	return n
+}
+
+func (fr *frame) loopWrites(li *LoopInfo, reach Term, st *State) map[string]*modInfo {
 	e := fr.e
 	c := e.c
 	wasDry := c.dry
@@ -735,7 +861,8 @@ func (fr *frame) loopWrites(li *LoopInfo, reach Term, st *State) map[string]bool
 		savedCnt[k] = v
 	}
 	fr.pending = map[*ssa.BasicBlock][]Edge{}
-	mod := map[string]bool{}
+	mod := map[string]*modInfo{}
+	limit := c.n
 	func() {
 		defer func() {
 			c.dry = wasDry
@@ -744,7 +871,33 @@ func (fr *frame) loopWrites(li *LoopInfo, reach Term, st *State) map[string]bool
 				for k, t := range s.cells {
 					if t0, ok := st.cells[k]; !ok || t0.S != t.S {
 						if !strings.HasPrefix(k, "l:") || ok {
-							mod[k] = true
+							mi := mod[k]
+							if mi == nil {
+								mi = &modInfo{precise: true}
+								mod[k] = mi
+							}
+							base, okb := st.cells[k]
+							if !okb {
+								base, okb = c.initial[k]
+							}
+							if !okb || !mi.precise {
+								mi.precise = false
+								continue
+							}
+							refs, okr := c.writtenRefs(t, base, limit, 0)
+							if !okr {
+								mi.precise = false
+								continue
+							}
+						outer:
+							for _, r := range refs {
+								for _, r0 := range mi.refs {
+									if r0.S == r.S {
+										continue outer
+									}
+								}
+								mi.refs = append(mi.refs, r)
+							}
 						}
 					}
 				}
